@@ -228,6 +228,21 @@ CHECKS: Dict[str, Dict[str, str]] = {
         note="Trusted: pathlib semantics (resolve, relative_to, parts).",
         design="3/C15",
     ),
+    "C06": dict(
+        technique="static analysis: layout traces (ALIGN / BITS / EMIT / FOR / IF events) extracted from the writer and reader "
+        "branches and compared event for event with each other and with the Specification's layout; dispatch exhaustiveness "
+        "over the resolved class hierarchy; constant folding of the cast-mode actions; defaults table extraction",
+        text="Decides the structural agreement of the independently written layout walkers - a necessary condition for the round "
+        "trip and for 'the produced length is an element of bit_length_set': writer and reader traces are identical for "
+        "structures, unions, both array kinds and every primitive kind; the writer's traces equal the layout model "
+        "(per-field alignment then field, final alignment; tag, variant, alignment; prefix = element count, elements under "
+        "the capacity guards; header = byte length of the serialized inner object followed by its bytes, at both copies; "
+        "little-endian float formats of the declared width); the nine isinstance dispatchers cover every concrete type "
+        "without shadowing; saturated = clamp and truncated = wrap are folded over boundary values; the defaults table and the "
+        "use of defaults for omitted fields. Value round trip, IEEE-754 and bit-level patterns are NOT decided.",
+        note="Trusted: struct.pack/unpack; LSB-first bit arithmetic of write_bits/read_bits (offset accounting is decided in C07.R3).",
+        design="3/C06",
+    ),
 }
 
 NOT_APPLICABLE: Dict[str, str] = {}
